@@ -14,6 +14,7 @@ EXPECTED = [
     ('parsedFileLimit', 'Nat', '30'),
     ('openedFileLimit', 'Nat', '2000'),
     ('keywordGotoKinds', 'List Nat', '[0, 1, 2, 3, 4]'),
+    ('globalStepSameScopeOnly', 'Bool', 'false'),
 ]
 
 #: inspect.Parameter kinds by number
@@ -63,6 +64,54 @@ def keyword_goto_kinds(repo):
             raise TieBroken(lost + '(unrecognised comparison)', u(c))
         kinds &= sel if isinstance(op, (ast.Eq, ast.In)) else (set(PARAM_KINDS.values()) - sel)
     return sorted(kinds), src
+
+
+def global_step_same_scope_only(src):
+    """which `global x` statements of the module references.py:_find_global_variables links to the found
+    names: read from the body of `for global_name in method().get(search_name):`.  Recognised shapes:
+      * no guard - the body is (in this order, `c = ..` may come first)
+            yield global_name
+            c = module_context.create_context(global_name.tree_name)
+            yield from _add_names_in_same_context(c, global_name.string_name)
+        every statement is linked                                                  -> False
+      * the same three statements with ONE guard `if <cond>: continue` placed after `c = ..` and before both
+        yields, <cond> = `not context.is_module() and c.tree_node is not context.tree_node` (conjuncts in any
+        order, `!=`/`is not`), `context = name.parent_context` assigned before the loop: a statement is linked
+        only to found names of the module or of the statement's own scope            -> True
+    anything else: TieBroken"""
+    fn = src.find('_find_global_variables')
+    lost = 'references.py: _find_global_variables lost the shape '
+    outer = [n for n in ast.walk(fn) if isinstance(n, ast.For) and u(n.target) == 'name' and u(n.iter) == 'names']
+    loops = [n for n in ast.walk(fn) if isinstance(n, ast.For) and u(n.target) == 'global_name']
+    if len(outer) != 1 or len(loops) != 1 or u(loops[0].iter) != 'method().get(search_name)' or loops[0].orelse:
+        raise TieBroken(lost + '`for name in names: ... for global_name in method().get(search_name):`',
+                        repr([u(l.iter) for l in loops]))
+    # the loop must be reached for every found name that has a tree name and a module with a global filter
+    head = [u(s) for s in outer[0].body[:2]]
+    if head != ['if name.tree_name is None:\n    continue', 'module_context = name.get_root_context()']:
+        raise TieBroken(lost + '(statements before the try)', repr(head))
+    Y, C, YF = ('yield global_name', 'c = module_context.create_context(global_name.tree_name)',
+                'yield from _add_names_in_same_context(c, global_name.string_name)')
+    body = loops[0].body
+    texts = [u(s) for s in body]
+    if sorted(texts) == sorted([Y, C, YF]) and texts.index(C) < texts.index(YF):
+        return False
+    guards = [s for s in body if isinstance(s, ast.If)]
+    rest = [u(s) for s in body if not isinstance(s, ast.If)]
+    if len(guards) == 1 and sorted(rest) == sorted([Y, C, YF]):
+        g = guards[0]
+        gi = body.index(g)
+        before = [u(s) for s in body[:gi]]
+        if [u(s) for s in g.body] == ['continue'] and not g.orelse and before == [C] \
+                and isinstance(g.test, ast.BoolOp) and isinstance(g.test.op, ast.And):
+            conj = sorted(u(c).replace(' != ', ' is not ') for c in g.test.values)
+            ctx_assigned = any(u(s) == 'context = name.parent_context' for s in ast.walk(outer[0])
+                               if isinstance(s, ast.Assign)) \
+                and not any(u(s) == 'context = name.parent_context' for s in ast.walk(loops[0])
+                            if isinstance(s, ast.Assign))
+            if conj == sorted(['not context.is_module()', 'c.tree_node is not context.tree_node']) and ctx_assigned:
+                return True
+    raise TieBroken(lost + '(body of the loop over the global names)', repr(texts))
 
 
 def limits(repo):
@@ -154,6 +203,11 @@ def _generate(repo, g):
             off = False
     g.define('flowAnalysisOffForDefiningNames', 'Bool', lean_bool(off), where)
     g.define('flowAnalysisRestored', 'Bool', lean_bool(restored), where + ' (finally clause)')
+
+    # ---- the global step: which `global x` statements are linked to the found names
+    g.define('globalStepSameScopeOnly', 'Bool', lean_bool(global_step_same_scope_only(src)),
+             'jedi/inference/references.py:_find_global_variables (False: every `global x` statement of the module is '
+             'linked; True: only statements in the scope of a found name, or all of them for a module-level name)')
 
     # ---- documented search limits
     g.define('shortNameLimit', 'Nat', str(_short_name_limit(src)),
